@@ -296,7 +296,9 @@ namespace details {
 			booster::shared_ptr<cppcms::impl::cgi::connection> c = conn_.lock();
 			if(!c)
 				return -1;
-			eof_send_ = send_eof;
+			// once the end of the response went out it must never go out again
+			if(send_eof)
+				eof_send_ = true;
 			// make sure flush goes all way to write to flush the buffers
 			if(raw_mode_ && !raw_headers_.headers_done()) {
 				auto out_data = out.get();
